@@ -46,15 +46,16 @@ Fixpoint load_rec (fuel : nat) (u : Z) (fsucc : gmap positive triple)
       if decide (absn u = 1%positive) then ret (u, umap) else
       (* `if u in umap`: the signed u is looked up among the positive keys *)
       match (if decide (0 < u)%Z then umap !! absn u else None) with
-      | Some r =>
-          assert (bool_decide (0 < r)%Z) ;;; ret (flip r u, umap)
+      | Some r => ret (flip r u, umap)
       | None =>
           t <- of_opt EKey (fsucc !! absn u) ;;
           j <- of_opt EKey (level_map !! t_lvl t) ;;
           pc <- load_rec f (t_lo t) fsucc umap level_map ;; let '(p, umap) := pc in
           qc <- load_rec f (t_hi t) fsucc umap level_map ;; let '(q, umap) := qc in
-          r <- find_or_add j p q ;;
-          assert (bool_decide (0 < r)%Z) ;;;
+          (* `p`, `q` can be above level `j` when the variables are in another
+             order here: the node is rebuilt through [ite] on the variable *)
+          g <- find_or_add j (-1) 1 ;;
+          r <- ite g q p ;;
           ret (flip r u, <[absn u := r]> umap)
       end
   end.
@@ -67,10 +68,12 @@ Definition load_pickle_nodes (pf : pfile) (levels : bool) : MS (gmap positive Z)
           j <- add_var v (if levels then Some i else None) ;;
           ret (<[i := j]> lm)) ∅ (pf_vars pf) ;;
   let fsucc : gmap positive triple := list_to_map (pf_succ pf) in
+  (* reordering requests are disabled while the nodes are rebuilt *)
+  guarded (
   foldM (fun umap '(u, _) =>
     if decide (is_Some (umap !! u)) then ret umap else
     r <- load_rec (S (length (pf_succ pf))) (Z.pos u) fsucc umap lm ;;
-    ret (snd r)) ({[1%positive := 1%Z]} : gmap positive Z) (pf_succ pf).
+    ret (snd r)) ({[1%positive := 1%Z]} : gmap positive Z) (pf_succ pf)).
 
 (** [load(filename, levels)]: maps the roots through [umap] *)
 Definition load_pickle (pf : pfile) (levels : bool) : MS rootsC :=
